@@ -20,7 +20,8 @@ sys.path.insert(0, ROOT)
 from tools import rs2coq2   # noqa
 
 SCR = "/tmp/t2eval_%d" % os.getpid()
-TARGETS = ["theories/proofs/Gen2_equiv_chunk.vo", "theories/proofs/Gen2_equiv_framing.vo", "theories/proofs/Gen2_transport.vo", "theories/proofs/Gen2_equiv_flow.vo", "theories/proofs/Gen2_equiv_analyze.vo", "theories/proofs/Gen2_equiv_call.vo", "theories/proofs/Gen2_equiv_prelude.vo", "theories/proofs/Gen2_equiv_amended.vo", "theories/proofs/Gen2_equiv_call2.vo", "theories/proofs/Gen2_equiv_call3.vo", "theories/proofs/Gen2_equiv_redirect.vo"]
+TARGETS = sorted("theories/proofs/" + os.path.basename(f)[:-2] + ".vo"
+                 for f in glob.glob(os.path.join(ROOT, "coq", "theories", "proofs", "Gen*_equiv*.v")) + glob.glob(os.path.join(ROOT, "coq", "theories", "proofs", "Gen2_transport*.v")))
 
 
 def main():
